@@ -2,6 +2,10 @@
 # tools/trymut.sh <patch.diff> <id> [<id>…]  — run quick checks against a scratch copy of /repo with the patch applied.
 # Prints, per check, the exit code and the VIOLATION / KNOWN-FINDING / summary lines. /repo itself is not touched.
 set -u
+# scratch trees live at ever-changing paths: their build output goes to a separate cache that is
+# dropped when it grows (the shared cache would otherwise keep every one of them for days)
+export GOCACHE=/var/tmp/gocache.mut
+trap '[ "$(du -sm /var/tmp/gocache.mut 2>/dev/null | cut -f1)" -gt 8000 ] 2>/dev/null && rm -rf /var/tmp/gocache.mut' EXIT
 patch="$(readlink -f "$1")"; shift
 tier="${TIER:-quick}"
 S=/var/tmp/mutrepo.$$
